@@ -98,7 +98,9 @@ CanEmitSameId == ENABLED (MachineStep /\ ev'.e = Got(l).e /\ ev'.a = Got(l).a)
 Attribution ==
   LET got == Trace[l].e
       isCb(k) == k \in {"test", "pt"}
-  IN IF got = "field" /\ CanEmitSameId THEN "C10"          \* same field, resolved under a different input key
+  IN IF Top.pc \in {"ptres", "pres"} THEN "C12"             \* how a PostTransform / Preprocess error is reported
+     ELSE IF got = "field" /\ CanEmitSameId THEN "C10"     \* same field, resolved under a different input key
+     ELSE IF got = "issue" /\ CanEmitSameId THEN "C10"     \* same issue, addressed by a different path
      ELSE IF got \in {"pt", "pre"} \/ CanEmit("pt") \/ CanEmit("pre") THEN "C12"
      ELSE IF got = "test" /\ CanEmitSameId THEN "C12"       \* same callback, wrong argument / value / context
      ELSE IF got = "test" \/ CanEmit("test") THEN "C02T"    \* a test ran that should not, or did not run
@@ -119,6 +121,7 @@ DestFn(R) ==
 
 Proj(s) == [i \in DOMAIN s |-> [path |-> s[i].path, code |-> s[i].code, ty |-> s[i].ty]]
 
+NoPath(s) == [i \in DOMAIN s |-> [code |-> s[i].code, ty |-> s[i].ty]]
 ReqCodes == {"required", "not_nil"}
 OnlyReq(s) == SelectSeq(s, LAMBDA i : i.code \in ReqCodes)
 
@@ -166,6 +169,9 @@ RetVerdicts(R, c, lineNo, tag) ==
         [bad |-> ok /\ BagOf(NonPT(ri)) # BagOf(ref),
          v |-> mk("C02", "issues", [got |-> NonPT(ri), want |-> ref])],
         [bad |-> ok /\ (R.nilres # (R.issues = <<>>)), v |-> mk("C02", "nil-iff-none", R.nilres)],
+        \* C10: the right issues under the wrong paths
+        [bad |-> ok /\ BagOf(NonPT(ri)) # BagOf(ref) /\ BagOf(NoPath(NonPT(ri))) = BagOf(NoPath(ref)),
+         v |-> mk("C10", "issue-paths", [got |-> NonPT(ri), want |-> ref])],
         \* C01: success means valid
         [bad |-> ok /\ R.issues = <<>> /\ ~ValidOf(c, rd), v |-> mk("C01", "invalid-success", rd)],
         \* C03: on success the destination is the documented coercion
@@ -180,12 +186,18 @@ RetVerdicts(R, c, lineNo, tag) ==
         \* C05: catching nodes are silent, hold catch iff they failed, and change nothing else
         [bad |-> ok /\ \E k \in DOMAIN ri : ~IsPTIssue(ri[k]) /\ ri[k].path \in cp,
          v |-> mk("C05", "issue-at-catching-node", ri)],
+        \* ... and hold their catch value exactly when they failed, whatever the other nodes did, in both modes
+        [bad |-> ok /\ \E q \in CatchDP(c.schema, <<>>, refd) : q \notin DOMAIN rd \/ rd[q] # refd[q],
+         v |-> mk("C05", "catch-dest", [diff |-> {q \in CatchDP(c.schema, <<>>, refd) : q \notin DOMAIN rd \/ rd[q] # refd[q]}])],
         [bad |-> ok /\ cp # {} /\ BagOf(off(NonPT(ri))) # BagOf(off(unc)),
          v |-> mk("C05", "interference", [got |-> off(NonPT(ri)), want |-> off(unc)])],
         \* C10: every issue sits under the key equal to its path; $first is the first one recorded
         [bad |-> ok /\ R.ismap /\ \E k \in DOMAIN R.issues :
                    R.issues[k].key # (IF R.issues[k].path = "" THEN "$root" ELSE R.issues[k].path),
          v |-> mk("C10", "key-not-path", R.issues)],
+        \* C10 path grammar: every (non-transform) issue is addressed by the path of a node of this execution or by an IssuePath override
+        [bad |-> ok /\ \E k \in DOMAIN ri : ~IsPTIssue(ri[k]) /\ ri[k].path \notin NodePathsOf(c),
+         v |-> mk("C10", "path", [got |-> {ri[k].path : k \in DOMAIN ri}, valid |-> NodePathsOf(c)])],
         [bad |-> ok /\ R.ismap /\ R.issues # <<>> /\
                    ~(Len(R.first) = 1 /\ R.first[1].code = R.firstev.a /\ R.first[1].path = R.firstev.b),
          v |-> mk("C10", "first", [first |-> R.first, firstev |-> R.firstev])],
